@@ -179,7 +179,7 @@ func judgePlus(c *Ctx, a, b string, r *gen.Rand) {
 		{"(ISC OR " + bPlain + ") AND MIT", []string{ap, "MIT"}, want},
 		{bPlain, []string{"MIT", "ISC", ap, "Zlib"}, want},
 	}
-	if (len(a)+len(b))%5 == 0 {
+	if (len(a)+len(b))%5 == 0 || gen.CmpVersion(va, vb) == 0 {
 		// the '+' entry as the last of a long list of unrelated entries (implementations index long lists)
 		long := make([]string, 0, 302)
 		for i := 0; len(long) < 300; i++ {
